@@ -618,6 +618,10 @@ class ExprMixin:
         def fin(s, vs):
             if not vs:
                 return k(s, s.alloc(HList(None, None, z3.IntVal(0))))
+            if any(isinstance(v, VOpt) for v in vs):       # [x] where x is provably not None on this path: a list of T
+                from .state import quick_unsat
+                pc = [z for z, q in s.pc if q]
+                vs = tuple(v.inner if isinstance(v, VOpt) and quick_unsat(pc + [v.isnone], 2000) else v for v in vs)
             et = type_of_val(vs[0], s)
             if et[0] in ('list', 'dict', 'rec'):
                 et = T_ANY                        # nested containers: opaque elements (boxed)
